@@ -65,22 +65,22 @@ Fixpoint sem_stmts (i : nat) (n : nat) : prog :=
            (Seq (Write GDsOut 0) (sem_stmts (S i) n')))
   end.
 
-Definition semantic_impl (n : nat) : prog := Seq (Write GRegistry 1) (sem_stmts 0 n).
+Definition semantic_body (n : nat) : prog := Seq (Write GRegistry 1) (sem_stmts 0 n).
 Definition restored : list (glob * Z) := [(GDsOut, 0)].
-Definition semantic_spec (n : nat) : prog := TryFinally (semantic_impl n) (resetp restored).
+Definition semantic_impl (n : nat) : prog := TryFinally (semantic_body n) (resetp restored).
 
 (* ---- set_decimal_config -------------------------------------------------------------------------------------- *)
 Definition opt_write (g : glob) (e : option Z) : prog := match e with Some v => Write g v | None => Skip end.
 
 (* faithful: `int(os.getenv(VAR, DECIMAL_WIDTH))` keeps the previous global when the variable is unset; the scale is
    checked against 6..15; the width only against its minimum (the upper-bound test compares DECIMAL_SCALE with 38). *)
-Definition decimal_impl (envW envS : option Z) : prog :=
+Definition decimal_before_fix (envW envS : option Z) : prog :=
   seqs [opt_write GWidth envW; opt_write GScale envS;
         Check GScale (between 6 15) [GDsOut];
         Check GWidth (fun w => 6 <=? w) [GDsOut]].
 
 Definition dflt (e : option Z) (d : Z) : Z := match e with Some v => v | None => d end.
-Definition decimal_spec (envW envS : option Z) : prog :=
+Definition decimal_impl (envW envS : option Z) : prog :=
   seqs [Write GWidth (dflt envW DEFAULT_WIDTH); Write GScale (dflt envS DEFAULT_SCALE);
         Check GScale (between 6 15) [GDsOut];
         Check GWidth (between 6 38) [GDsOut]].
@@ -123,11 +123,11 @@ Definition conn_pre (fb : bool) : prog :=
   seqs [Step LMkdir []; Acquire RDir; Step LConnect []; acquire_db fb;
         Step LSettings []; Step LUdf []; Step LDecimal []].
 
-Definition conn_impl (fb : bool) (dec body : prog) : prog :=
+Definition conn_before_fix (fb : bool) (dec body : prog) : prog :=
   Seq (conn_pre fb) (Seq dec (Seq (Step LSetTemp []) (TryFinally body conn_finally))).
 
 (* spec: the same steps in the same order, every acquisition inside the try whose finally releases it *)
-Definition conn_spec (fb : bool) (dec body : prog) : prog :=
+Definition conn_impl (fb : bool) (dec body : prog) : prog :=
   Seq (Step LMkdir [])
       (TryFinally
          (seqs [Acquire RDir; Step LConnect []; acquire_db fb; Step LSettings []; Step LUdf []; Step LDecimal [];
@@ -135,11 +135,11 @@ Definition conn_spec (fb : bool) (dec body : prog) : prog :=
          conn_finally).
 
 (* ---- run() --------------------------------------------------------------------------------------------------- *)
+Definition run_before_fix (n : nat) (fb : bool) (envW envS : option Z) (body : prog) : prog :=
+  Seq (semantic_body n) (conn_before_fix fb (decimal_before_fix envW envS) body).
+
 Definition run_impl (n : nat) (fb : bool) (envW envS : option Z) (body : prog) : prog :=
   Seq (semantic_impl n) (conn_impl fb (decimal_impl envW envS) body).
-
-Definition run_spec (n : nat) (fb : bool) (envW envS : option Z) (body : prog) : prog :=
-  Seq (semantic_spec n) (conn_spec fb (decimal_spec envW envS) body).
 
 (* validate_dataset / any loader: may raise a DataLoadError whose message reads dataset_output; writes nothing *)
 Definition validate_prog : prog := Step LValidate [GDsOut].
@@ -156,16 +156,16 @@ Definition predicted_leak (fb : bool) (k : nat) : list res :=
   | _ => []
   end.
 
-Definition valid_cfg_impl (envW envS : option Z) (G : glob -> Z) : bool :=
+Definition valid_cfg_before_fix (envW envS : option Z) (G : glob -> Z) : bool :=
   between 6 15 (dflt envS (G GScale)) && (6 <=? dflt envW (G GWidth)).
 
 Definition G0 : glob -> Z := fun g =>
   if Nat.eqb g GWidth then DEFAULT_WIDTH else if Nat.eqb g GScale then DEFAULT_SCALE else 0.
 
 (* the API calls of the spec skeleton: a run of any shape / environment setting, or a loader that may raise *)
-Inductive api_call_spec : prog -> Prop :=
-| AC_run : forall n fb envW envS ss nfinal save, api_call_spec (run_spec n fb envW envS (exec_queries ss nfinal save))
-| AC_validate : api_call_spec validate_prog.
+Inductive api_call : prog -> Prop :=
+| AC_run : forall n fb envW envS ss nfinal save, api_call (run_impl n fb envW envS (exec_queries ss nfinal save))
+| AC_validate : api_call validate_prog.
 
 Definition body1 : prog := exec_queries [mkStmt [LoadDf] [true]] 0 false.
 
